@@ -314,6 +314,18 @@ class CallMixin:
             self.pre.append(f'{self.ctype(a0t)} {r} = {last};')
             self.pre.append(f'for ({self.ctype(a0t)} {it} = {first}; {it} != {last}; ++{it}) {{ if ({call}) {{ {r} = {it}; break; }} }}')
             return r
+        if name == 'count' and len(args) == 3 and et.kind == 'prim':
+            # std::count(first, last, value) over scalars: the library loop
+            if self.cond_depth:
+                raise LoweringError('std::count in a conditional operand')
+            first = self.hoist(a0t, self.ex(args[0]))
+            last = self.hoist(a0t, self.ex(args[1]))
+            val = self.hoist(et, self.value_of(args[2]))
+            it, c = self.tmp('__it'), self.tmp('__cnt')
+            self.cur['loops'] += 1
+            self.pre.append(f'int64_t {c} = 0;')
+            self.pre.append(f'for ({self.ctype(a0t)} {it} = {first}; {it} != {last}; ++{it}) {{ if (*{it} == {val}) ++{c}; }}')
+            return c
         if name in ('max_element', 'min_element') and len(args) == 3 and self.is_lambda_arg(args[2]):
             # std::max_element / std::min_element with a comparator lambda: the library loop (first extreme element)
             lam = self.lambda_fn(self.strip_to_lambda(args[2]))
@@ -536,6 +548,15 @@ class CallMixin:
                 return f'{obj}.p[{obj}.n - 1]'
             reserved = fam == 'vector' and obj in self.spec.options.get('model_reserve', '').split(',')
             if m == 'reserve' and not reserved:
+                # capacity is not modelled, but reserve(n) raises std::length_error when n exceeds max_size(): an argument that is not a
+                # plain size() / constant expression (e.g. the result of a subtraction that can wrap) is checked for that
+                a0 = A(0)
+                if self.cond_depth == 0 and re.search(r'[-]', a0):
+                    self.helpers.add('assert')
+                    esz = f'sizeof({self.ctype(et)})' if fam == 'vector' else '1'
+                    self.pre.append(f'if ((uint64_t)({a0}) > 0x7FFFFFFFFFFFFFFFul / {esz}) {{ __exc = EXC_length_error; {self.unwind_stmt()} }}')
+                    self.cur['maythrow'] = True
+                    self.cur['throws'].add('std::length_error')
                 return '((void)0)'
             if m in ('shrink_to_fit',):
                 return '((void)0)'
